@@ -1,1 +1,379 @@
-//! (to be filled in)
+//! Reference models: small, independent re-statements of the protocol rules the properties quote,
+//! written from the property statements (not from the code under test).
+
+use std::collections::{BTreeMap, BTreeSet};
+
+/// Block identity inside the pool world: (slot, tag). Tag 0 is reserved for "no block".
+pub type Blk = (u64, u64);
+
+#[derive(Clone, Copy, Debug, PartialEq, Eq, PartialOrd, Ord, Hash)]
+pub enum VK {
+    Notar,
+    NotarFallback,
+    Skip,
+    SkipFallback,
+    Final,
+}
+
+pub const ALL_VK: [VK; 5] = [VK::Notar, VK::NotarFallback, VK::Skip, VK::SkipFallback, VK::Final];
+
+#[derive(Clone, Copy, Debug, PartialEq, Eq, PartialOrd, Ord, Hash)]
+pub enum CK {
+    Notar,
+    NotarFallback,
+    Skip,
+    FastFinal,
+    Final,
+}
+
+#[derive(Clone, Copy, Debug, PartialEq, Eq, PartialOrd, Ord, Hash)]
+pub struct VoteId {
+    pub v: usize,
+    pub kind: VK,
+    pub slot: u64,
+    /// block tag for notar / notar-fallback, 0 otherwise
+    pub tag: u64,
+}
+
+#[derive(Clone, Copy, Debug, PartialEq, Eq, PartialOrd, Ord)]
+pub enum Offence {
+    NotarDifferentHash,
+    SkipAndNotarize,
+    SkipAndFinalize,
+    NotarFallbackAndFinalize,
+}
+
+#[derive(Clone, Debug, PartialEq, Eq)]
+pub enum Verdict {
+    Ok,
+    Duplicate,
+    /// any of the listed offences is an acceptable report
+    Slashable(Vec<Offence>),
+}
+
+/// Accepted votes of one validator in one slot.
+#[derive(Clone, Debug, Default)]
+pub struct ValVotes {
+    pub notar: Option<u64>,
+    pub nf: BTreeSet<u64>,
+    pub skip: bool,
+    pub sf: bool,
+    pub fin: bool,
+}
+
+/// C04: the verdict the property demands for a vote given the votes already accepted from the
+/// same validator in the same slot — symmetric in arrival order by construction.
+pub fn expected_verdict(st: &ValVotes, kind: VK, tag: u64) -> Verdict {
+    let mut off = Vec::new();
+    match kind {
+        VK::Notar => {
+            if st.skip {
+                off.push(Offence::SkipAndNotarize);
+            }
+            if st.notar.is_some_and(|t| t != tag) {
+                off.push(Offence::NotarDifferentHash);
+            }
+            if !off.is_empty() {
+                return Verdict::Slashable(off);
+            }
+            if st.notar == Some(tag) || st.nf.contains(&tag) {
+                return Verdict::Duplicate;
+            }
+        }
+        VK::NotarFallback => {
+            if st.fin {
+                return Verdict::Slashable(vec![Offence::NotarFallbackAndFinalize]);
+            }
+            if st.nf.contains(&tag) || st.notar == Some(tag) {
+                return Verdict::Duplicate;
+            }
+        }
+        VK::Skip => {
+            if st.fin {
+                off.push(Offence::SkipAndFinalize);
+            }
+            if st.notar.is_some() {
+                off.push(Offence::SkipAndNotarize);
+            }
+            if !off.is_empty() {
+                return Verdict::Slashable(off);
+            }
+            if st.skip || st.sf {
+                return Verdict::Duplicate;
+            }
+        }
+        VK::SkipFallback => {
+            if st.fin {
+                return Verdict::Slashable(vec![Offence::SkipAndFinalize]);
+            }
+            if st.sf || st.skip {
+                return Verdict::Duplicate;
+            }
+        }
+        VK::Final => {
+            if st.skip || st.sf {
+                off.push(Offence::SkipAndFinalize);
+            }
+            if !st.nf.is_empty() {
+                off.push(Offence::NotarFallbackAndFinalize);
+            }
+            if !off.is_empty() {
+                return Verdict::Slashable(off);
+            }
+            if st.fin {
+                return Verdict::Duplicate;
+            }
+        }
+    }
+    Verdict::Ok
+}
+
+pub fn apply_vote(st: &mut ValVotes, kind: VK, tag: u64) {
+    match kind {
+        VK::Notar => st.notar = Some(tag),
+        VK::NotarFallback => {
+            st.nf.insert(tag);
+        }
+        VK::Skip => st.skip = true,
+        VK::SkipFallback => st.sf = true,
+        VK::Final => st.fin = true,
+    }
+}
+
+/// Accepted votes of all validators in one slot + derived stake sums.
+#[derive(Clone, Debug)]
+pub struct SlotModel {
+    pub vals: Vec<ValVotes>,
+}
+
+impl SlotModel {
+    pub fn new(n: usize) -> Self {
+        Self { vals: vec![ValVotes::default(); n] }
+    }
+
+    pub fn notar_stake(&self, stakes: &[u64], tag: u64) -> u64 {
+        self.vals.iter().zip(stakes).filter(|(v, _)| v.notar == Some(tag)).map(|(_, s)| *s).sum()
+    }
+
+    pub fn nf_stake(&self, stakes: &[u64], tag: u64) -> u64 {
+        self.vals.iter().zip(stakes).filter(|(v, _)| v.nf.contains(&tag)).map(|(_, s)| *s).sum()
+    }
+
+    pub fn skip_stake(&self, stakes: &[u64]) -> u64 {
+        self.vals.iter().zip(stakes).filter(|(v, _)| v.skip).map(|(_, s)| *s).sum()
+    }
+
+    pub fn sf_stake(&self, stakes: &[u64]) -> u64 {
+        self.vals.iter().zip(stakes).filter(|(v, _)| v.sf).map(|(_, s)| *s).sum()
+    }
+
+    pub fn final_stake(&self, stakes: &[u64]) -> u64 {
+        self.vals.iter().zip(stakes).filter(|(v, _)| v.fin).map(|(_, s)| *s).sum()
+    }
+
+    pub fn total_notar_stake(&self, stakes: &[u64]) -> u64 {
+        self.vals.iter().zip(stakes).filter(|(v, _)| v.notar.is_some()).map(|(_, s)| *s).sum()
+    }
+
+    pub fn notar_tags(&self) -> BTreeSet<u64> {
+        self.vals.iter().filter_map(|v| v.notar).collect()
+    }
+
+    pub fn all_tags(&self) -> BTreeSet<u64> {
+        let mut t = self.notar_tags();
+        for v in &self.vals {
+            t.extend(v.nf.iter().copied());
+        }
+        t
+    }
+
+    pub fn max_notar_stake(&self, stakes: &[u64]) -> u64 {
+        self.notar_tags().iter().map(|t| self.notar_stake(stakes, *t)).max().unwrap_or(0)
+    }
+
+    /// signers the property demands in a certificate of the given type (for `tag` where relevant)
+    pub fn expected_signers(&self, ck: CK, tag: u64) -> BTreeSet<usize> {
+        let mut s = BTreeSet::new();
+        for (i, v) in self.vals.iter().enumerate() {
+            let yes = match ck {
+                CK::Notar | CK::FastFinal => v.notar == Some(tag),
+                CK::NotarFallback => v.notar == Some(tag) || v.nf.contains(&tag),
+                CK::Skip => v.skip || v.sf,
+                CK::Final => v.fin,
+            };
+            if yes {
+                s.insert(i);
+            }
+        }
+        s
+    }
+}
+
+pub fn frac_met(value: u64, total: u64, num: u64, den: u64) -> bool {
+    u128::from(value) * u128::from(den) >= u128::from(total) * u128::from(num)
+}
+
+pub fn q20(v: u64, t: u64) -> bool {
+    frac_met(v, t, 1, 5)
+}
+pub fn q40(v: u64, t: u64) -> bool {
+    frac_met(v, t, 2, 5)
+}
+pub fn q60(v: u64, t: u64) -> bool {
+    frac_met(v, t, 3, 5)
+}
+pub fn q80(v: u64, t: u64) -> bool {
+    frac_met(v, t, 4, 5)
+}
+
+/// C03: does the vote table alone demand a certificate of this type?
+pub fn threshold_reached(m: &SlotModel, stakes: &[u64], ck: CK, tag: u64) -> bool {
+    let total: u64 = stakes.iter().sum();
+    match ck {
+        CK::Notar => q60(m.notar_stake(stakes, tag), total),
+        CK::FastFinal => q80(m.notar_stake(stakes, tag), total),
+        CK::NotarFallback => {
+            let signers = m.expected_signers(CK::NotarFallback, tag);
+            q60(signers.iter().map(|i| stakes[*i]).sum(), total)
+        }
+        CK::Skip => {
+            let signers = m.expected_signers(CK::Skip, 0);
+            q60(signers.iter().map(|i| stakes[*i]).sum(), total)
+        }
+        CK::Final => q60(m.final_stake(stakes), total),
+    }
+}
+
+/// C06: the stake part of the safe-to-notar condition.
+pub fn s2n_stake_condition(m: &SlotModel, stakes: &[u64], tag: u64) -> bool {
+    let total: u64 = stakes.iter().sum();
+    let notar = m.notar_stake(stakes, tag);
+    q40(notar, total) || (q20(notar, total) && q60(notar + m.skip_stake(stakes), total))
+}
+
+/// C06: the stake part of the safe-to-skip condition.
+pub fn s2s_stake_condition(m: &SlotModel, stakes: &[u64]) -> bool {
+    let total: u64 = stakes.iter().sum();
+    q40(m.skip_stake(stakes) + m.total_notar_stake(stakes) - m.max_notar_stake(stakes), total)
+}
+
+// ---------------------------------------------------------------------------------------------
+// Certificate-level reference (C07 / C08)
+
+#[derive(Clone, Debug, Default)]
+pub struct CertView {
+    /// certificates held, by slot
+    pub notar: BTreeMap<u64, u64>,
+    pub nf: BTreeMap<u64, BTreeSet<u64>>,
+    pub ff: BTreeMap<u64, u64>,
+    pub fin: BTreeSet<u64>,
+    pub skip: BTreeSet<u64>,
+    /// registered block -> parent
+    pub parents: BTreeMap<Blk, Blk>,
+}
+
+#[derive(Clone, Debug, Default, PartialEq, Eq)]
+pub struct Finality {
+    pub direct: BTreeMap<u64, u64>,
+    pub implicit: BTreeMap<u64, u64>,
+    pub implicit_skipped: BTreeSet<u64>,
+}
+
+impl Finality {
+    pub fn highest_direct(&self) -> u64 {
+        self.direct.keys().next_back().copied().unwrap_or(0)
+    }
+
+    pub fn decided(&self, s: u64) -> bool {
+        s == 0 || self.direct.contains_key(&s) || self.implicit.contains_key(&s) || self.implicit_skipped.contains(&s)
+    }
+
+    /// end of the contiguous decided prefix (slot 0 is decided by definition)
+    pub fn watermark(&self) -> u64 {
+        let mut s = 0;
+        while self.decided(s + 1) {
+            s += 1;
+        }
+        s
+    }
+
+    pub fn finalized_block(&self, s: u64) -> Option<u64> {
+        self.direct.get(&s).or_else(|| self.implicit.get(&s)).copied()
+    }
+}
+
+impl CertView {
+    /// C08: finalized(s,b) iff FastFinal(s,b) or (Final(s) and Notar(s,b)); ancestors of finalized
+    /// blocks are finalized and the slots between them skipped, as far as parent links are known.
+    pub fn finality(&self) -> Finality {
+        let mut f = Finality::default();
+        for (s, t) in &self.ff {
+            f.direct.insert(*s, *t);
+        }
+        for s in &self.fin {
+            if let Some(t) = self.notar.get(s) {
+                f.direct.entry(*s).or_insert(*t);
+            }
+        }
+        let starts: Vec<Blk> = f.direct.iter().map(|(s, t)| (*s, *t)).collect();
+        for b in starts {
+            let mut cur = b;
+            while let Some(p) = self.parents.get(&cur) {
+                for s in p.0 + 1..cur.0 {
+                    f.implicit_skipped.insert(s);
+                }
+                if p.0 == 0 {
+                    break;
+                }
+                if !f.direct.contains_key(&p.0) {
+                    f.implicit.insert(p.0, p.1);
+                }
+                cur = *p;
+            }
+        }
+        f
+    }
+
+    pub fn certified(&self, b: Blk) -> bool {
+        if b == (0, 0) {
+            return true;
+        }
+        self.notar.get(&b.0) == Some(&b.1) || self.ff.get(&b.0) == Some(&b.1) || self.nf.get(&b.0).is_some_and(|s| s.contains(&b.1))
+    }
+
+    /// all blocks that count as possible parents: certified, finalized (either way), genesis
+    pub fn parent_candidates(&self, f: &Finality) -> BTreeSet<Blk> {
+        let mut c: BTreeSet<Blk> = BTreeSet::new();
+        c.insert((0, 0));
+        for (s, t) in &self.notar {
+            c.insert((*s, *t));
+        }
+        for (s, t) in &self.ff {
+            c.insert((*s, *t));
+        }
+        for (s, ts) in &self.nf {
+            for t in ts {
+                c.insert((*s, *t));
+            }
+        }
+        for (s, t) in f.direct.iter().chain(f.implicit.iter()) {
+            c.insert((*s, *t));
+        }
+        c
+    }
+
+    /// C07: b is a ready parent for window-first slot s iff b is a candidate in an earlier slot and
+    /// every slot strictly between is skip-certified or implicitly skipped.
+    pub fn ready_parents(&self, f: &Finality, s: u64) -> BTreeSet<Blk> {
+        let mut out = BTreeSet::new();
+        for b in self.parent_candidates(f) {
+            if b.0 >= s {
+                continue;
+            }
+            if (b.0 + 1..s).all(|x| self.skip.contains(&x) || f.implicit_skipped.contains(&x)) {
+                out.insert(b);
+            }
+        }
+        out
+    }
+}
